@@ -44,7 +44,7 @@ def _mk(i, m, log, exc):
         if ex == "false":
             return False
         if ex == "true":
-            return True
+            return [True, 1, (0,), "suppress"][i % 4]      # any truthy result suppresses, as in `with` / `async with`
         raise exc(ex[1])
     if fl == "async":
         class A:
